@@ -46,3 +46,19 @@ Example precompile_call_refund_example :
   get_bal (bal s) (1, 0, 0) = 50 /\ get_bal (bal s) (1, 3, 2) = 60 /\ get_bal (bal s) (1, 3, 0) = 0 /\
   get_bal (bal s) (0, 0, 0) = 4950 /\ get_bal (bal s) (0, 3, 2) = 940 /\ get_bal (bal s) (0, 3, 0) = 0.
 Proof. vm_compute. repeat split; discriminate. Qed.
+
+(* transfers started from the EVM: the ERC-20 one carries the outgoing relation and is refunded as ERC-20, the FX one and
+   the message one are refunded in the bank; the relation disappears with the cancel and with the execution *)
+Definition r_ledger : ledger :=
+  [((0, 0, 0), 5000); ((0, 3, 0), 5000); ((0, 3, 2), 1000); ((1, 3, 2), 1000); ((ERC20MOD, 3, 0), 3000); ((MODULE, 0, 0), 1000000); ((MODULE, 3, 1), 100000)].
+Definition r_init : state := init nv_params [(0, KNative); (3, KCoin)] r_ledger 2.
+Definition r_ops : list op :=
+  [Observe 500; SendP 0 1 40 5 3; SendP 1 2 30 7 3; SendP 0 0 20 3 0; Send 0 1 25 4 3; Cancel 1 0; Cancel 4 0; Cancel 3 0;
+   RequestBatch 3 1 0 0 1 true; BatchExecuted 3 1 600].
+
+Example relation_example :
+  relation (run r_init (firstn 5 r_ops)) = [2; 1] /\
+  (let s := run r_init (firstn 6 r_ops) in relation s = [2] /\ get_bal (bal s) (0, 3, 2) = 1000 /\ get_bal (bal s) (0, 3, 0) = 5000 - 29) /\
+  (let s := run r_init (firstn 8 r_ops) in get_bal (bal s) (0, 3, 0) = 5000 /\ get_bal (bal s) (0, 0, 0) = 5000 /\ get_bal (bal s) (0, 3, 2) = 1000) /\
+  (let s := run r_init r_ops in relation s = [] /\ pool s = [] /\ batches s = [] /\ get_bal (bal s) (1, 3, 2) = 963).
+Proof. vm_compute. repeat split. Qed.
